@@ -820,8 +820,11 @@ theorem pushRejected_agree (cfg : ScanCfg) (hl : LangAgree cfg.lang) (pre : List
         simp only [Option.isNone_some, Bool.false_eq_true, if_false] at he
         cases he
         apply SProp.setPrev
-        apply SProp.outside
-        exact AProp.closed _ _ (by rw [hp1]; try rfl) (by rw [hp1]; try rfl) (fun o ho => (hocc1 o ho).mono [tok])
+        have hcl1 : SProp cfg (pre ++ [tok]) { s1 with parser := s1.parser } :=
+          AProp.closed _ _ (by rw [hp1]; try rfl) (by rw [hp1]; try rfl) (fun o ho => (hocc1 o ho).mono [tok])
+        split
+        · exact hcl1
+        · exact SProp.outside hcl1 tok
   · rw [if_neg hn] at he
     cases he
     apply SProp.setPrev
